@@ -1208,6 +1208,157 @@ theorem set_context_missing (key s : String) (fc : Fmt) (hs : s.toList.contains 
     simp only [hs, hi, hk, if_true]
   simp [setCtxInit, SetCtx.setContext, this]
 
+/-! ## 10. The Boolean forms that the driver executes decide the hypotheses of the theorems
+
+(`wfPathB_iff`, `valWFB_iff` are in `Lemmas/C08.lean`; `strFieldsB_iff`, `notTemplateB_iff` above) -/
+
+theorem pieceWFB_iff (p : Piece) : pieceWFB p = true ↔ p.WF := by
+  cases p with
+  | lit s =>
+    simp only [pieceWFB, Piece.WF, List.all_eq_true, Bool.and_eq_true, bne_iff_ne, ne_eq]
+  | field q =>
+    simp only [pieceWFB, Piece.WF, Bool.and_eq_true, wfPathB_iff, List.all_eq_true, bne_iff_ne, ne_eq,
+      Bool.not_eq_true']
+
+/-- `illFormedB`, which the driver evaluates on the whole option matrix, decides `IllFormed` -/
+theorem illFormedB_iff (a : UCArgs) : illFormedB a = true ↔ IllFormed a := by
+  obtain ⟨sub, upd, value, dflt, skip, rais, rec⟩ := a
+  cases sub with
+  | none => simp [illFormedB, IllFormed]
+  | some sc =>
+    by_cases hsc : sc = ""
+    · subst hsc; simp [illFormedB, IllFormed]
+    · cases upd with
+      | simple v =>
+        cases dflt <;> cases skip <;> cases rais <;>
+          simp [illFormedB, IllFormed, nActive, hsc, jinjaRejects]
+      | str u =>
+        cases hm : matchValueTemplate u.toList <;> cases hj : jinjaParse u <;>
+        by_cases hb : '{' ∈ u.toList <;>
+        cases dflt <;> cases skip <;> cases rais <;> cases value <;>
+          simp [illFormedB, IllFormed, nActive, hsc, jinjaRejects, hm, hj, hb]
+
+/-! ## 11. The malformed-argument contract after the two patches (/verif/notes/C08_defect_1, _2) -/
+
+/-- a key that is not a string: `str_to_dict`, `str_to_list`, `DeleteContext`, `format_update_with` and
+`SetContext` all answer `LenaTypeError` -/
+theorem non_string_key (v : Option Val) (x : Val) (d : Val) (hv : NotTemplate x) :
+    strToDictE none v = .error .lenaTypeError ∧
+    strToListE none = .error .lenaTypeError ∧
+    dcInit .other = .error .lenaTypeError ∧
+    formatUpdateWith none x d = .error .lenaTypeError ∧
+    setCtxInit none x = .error .lenaTypeError := by
+  have h : formatUpdateWith none x (.dict []) = .error .lenaTypeError := by
+    unfold formatUpdateWith; rw [formatValue_plain x _ hv]; rfl
+  refine ⟨rfl, rfl, rfl, ?_, ?_⟩
+  · unfold formatUpdateWith; rw [formatValue_plain x _ hv]; rfl
+  · simp [setCtxInit, SetCtx.setContext, h]
+
+theorem dropWhileSpace_nonspace (l : List Char) (c : Char) (hc : isSpace c = false) :
+    dropWhileSpace (c :: l) = c :: l := by
+  simp [dropWhileSpace, hc]
+
+theorem dropWhileSpace_spaces : ∀ (l r : List Char), (∀ c ∈ l, isSpace c = true) → dropWhileSpace (l ++ r) = dropWhileSpace r
+  | [], r, _ => rfl
+  | c :: l, r, h => by
+    have hc := h c (by simp)
+    simp only [List.cons_append, dropWhileSpace, hc, if_true]
+    exact dropWhileSpace_spaces l r (fun x hx => h x (by simp [hx]))
+
+/-- `update[2:-2].strip()`: blanks around a key whose first and last characters are not blank are dropped -/
+theorem strip_blanks (l r key : List Char) (hl : ∀ c ∈ l, isSpace c = true) (hr : ∀ c ∈ r, isSpace c = true)
+    (hne : key ≠ []) (h0 : ∀ c, key.head? = some c → isSpace c = false)
+    (h1 : ∀ c, key.getLast? = some c → isSpace c = false) :
+    strip (l ++ key ++ r) = key := by
+  unfold strip
+  obtain ⟨c0, t, ht⟩ : ∃ c0 t, key = c0 :: t := by
+    cases key with
+    | nil => exact absurd rfl hne
+    | cons a b => exact ⟨a, b, rfl⟩
+  obtain ⟨t', c1, ht'⟩ : ∃ t' c1, key = t' ++ [c1] := by
+    rcases List.eq_nil_or_concat key with h | ⟨a, b, h⟩
+    · exact absurd h hne
+    · exact ⟨a, b, by simpa using h⟩
+  have hc0 : isSpace c0 = false := h0 c0 (by simp [ht])
+  have hc1 : isSpace c1 = false := h1 c1 (by simp [ht'])
+  rw [List.append_assoc, dropWhileSpace_spaces l _ hl]
+  have e1 : key ++ r = c0 :: (t ++ r) := by simp [ht]
+  rw [e1, dropWhileSpace_nonspace _ _ hc0, ← e1, ht', List.append_assoc, List.reverse_append, List.reverse_append]
+  have hr' : ∀ c ∈ r.reverse, isSpace c = true := fun c hc => hr c (by simpa using hc)
+  rw [List.append_assoc, dropWhileSpace_spaces r.reverse _ hr']
+  simp only [List.reverse_cons, List.reverse_nil, List.nil_append, List.singleton_append]
+  rw [dropWhileSpace_nonspace _ _ hc1]
+  simp
+
+theorem matchBody_spec : ∀ (body : List Char) (seen : Bool), (∀ c ∈ body, c ≠ '{' ∧ c ≠ '}') →
+    ∀ tail : List Char, matchBody (body ++ '}' :: '}' :: tail) seen =
+      ((seen || body.any (fun c => !isSpace c)) && decide (tail = []))
+  | [], seen, _, tail => by
+    cases tail <;> simp [matchBody]
+  | c :: r, seen, h, tail => by
+    have hc := h c (by simp)
+    simp only [List.cons_append, matchBody, hc.1, hc.2, if_false]
+    rw [matchBody_spec r _ (fun x hx => h x (by simp [hx])) tail]
+    simp [Bool.or_assoc]
+
+/-- **value_template** — `UpdateContext(…, value=True)` accepts exactly `{{` + brace-free text with a
+non-blank character + `}}` and nothing after it (a final newline included: `LenaValueError`); the key is
+that text without the blanks around it -/
+theorem value_template (body tail : List Char) (hb : ∀ c ∈ body, c ≠ '{' ∧ c ≠ '}') :
+    matchValueTemplate ('{' :: '{' :: (body ++ '}' :: '}' :: tail)) =
+      (body.any (fun c => !isSpace c) && decide (tail = [])) ∧
+    valueKey (String.ofList ('{' :: '{' :: (body ++ ['}', '}']))) = String.ofList (strip body) := by
+  constructor
+  · simp only [matchValueTemplate]
+    rw [matchBody_spec body false hb tail]
+    simp
+  · unfold valueKey
+    simp only [String.toList_ofList, List.drop_succ_cons, List.drop_zero, List.length_cons, List.length_append,
+      List.length_nil]
+    congr 2
+    have : body.length + (0 + 1 + 1) + 1 + 1 - 4 = body.length := by omega
+    rw [this, List.take_left']
+    rfl
+
+example : matchValueTemplate "{{ a.b }}".toList = true ∧ valueKey "{{ a.b }}" = "a.b" := by decide
+example : matchValueTemplate "{{a}}\n".toList = false ∧ matchValueTemplate "{{ }}".toList = false := by decide
+
+/-! ## 12. `to_string` of lists, floats and objects; `Context` -/
+
+/-- `to_string` raises `LenaValueError` exactly for a value with an item that `json.dumps` cannot encode
+(an object of another class), and otherwise returns the canonical tokens that the theorems of section 7
+are about; a list is encoded element by element, in order, between brackets -/
+theorem to_string_errors (v : Val) :
+    (serialisable v = true → toStringE v = .ok (toTokens v)) ∧
+    (serialisable v = false → toStringE v = .error .lenaValueError) ∧
+    (∀ k s, serialisable (.dict [(k, .leaf (.obj s))]) = false) ∧
+    (∀ x y : Val, toTokens (.list [x, y]) = .lbrack :: (toTokens x ++ .comma :: toTokens y ++ [.rbrack])) := by
+  refine ⟨?_, ?_, ?_, ?_⟩
+  · intro h; simp [toStringE, h]
+  · intro h; simp [toStringE, h]
+  · intro k s; simp [serialisable, serialisableE]
+  · intro x y; simp [toTokens, elemTokens]
+
+/-- lists keep their order in `to_string`: two lists with the same elements in another order give
+different strings -/
+example : toTokens (.list [.leaf (.int 1), .leaf (.int 2)]) ≠ toTokens (.list [.leaf (.int 2), .leaf (.int 1)]) := by
+  decide
+
+/-- `Context.__call__` on a `(data, context)` pair keeps data and items; `Context.__getattr__` returns the
+item of a public name, `LenaAttributeError` when it is missing, `AttributeError` for a private name -/
+theorem context_element {δ : Type} (x : δ) (c : Entries) (name : String) :
+    contextCall (Item.pair x c) = .ok (.pair x c) ∧
+    (name.toList.head? = some '_' → contextGetAttr c name = .error .attributeError) ∧
+    (name.toList.head? ≠ some '_' → ∀ v, lookup c name = some v → contextGetAttr c name = .ok v) ∧
+    (name.toList.head? ≠ some '_' → lookup c name = none → contextGetAttr c name = .error .lenaAttributeError) := by
+  refine ⟨rfl, ?_, ?_, ?_⟩
+  · intro h; simp [contextGetAttr, h]
+  · intro h v hv; simp [contextGetAttr, h, hv]
+  · intro h hv; simp [contextGetAttr, h, hv]
+
+example : contextRepr [("2", .dict [("3", .leaf (.int 4))]), ("1", .leaf (.int 1))] =
+    .ok "{\n    \"1\": 1,\n    \"2\": {\n        \"3\": 4\n    }\n}" := by decide
+
 /-! ## Non-vacuity: concrete instances of the hypotheses used above -/
 
 example : EntriesWF [("a", .dict [("b", .leaf (.int 7)), ("c", .leaf (.int 1))]), ("b", .leaf .none)] := by
